@@ -91,6 +91,7 @@ void hnd_unknown_put(coap_resource_t *, coap_session_t *, const coap_pdu_t *requ
 struct C17 : Property {
   C17() {
     id = "C17";
+    level = "fault_enumeration";
     technique = "deterministic simulation with crash injection: real libcoap server with coap_persist_startup() on real files behind a link-time stdio/rename seam; seeded histories of dynamic-resource creation/deletion, observe registration/cancellation and notifications by scripted peers; the server process is killed at the k-th boundary (before/after) of every fopen/fwrite/fprintf/fflush/fclose/rename/remove call the persistence code makes (k swept, also during the restart's own load), the disk image of a killed process is taken there and a new server is started from it";
     rule_text = "plan = save_freq 1..10 x 2-3 peers x 4-25 ops (create dynamic resource by PUT, delete it, register observation on a static or dynamic resource CON/NON, cancel it, change a resource 1-12 times = notifications) x kill index k in 0..399 for the first incarnation and optionally a second kill index for the restarted one (k beyond the number of boundaries = kill at quiescence) x 2 s down time. After the last restart every resource is changed once and every dynamic resource is fetched. Non-trivial: the kill hit a boundary inside an update (not at quiescence) while at least one observation was confirmed; distinct = distinct (scenario hash, kill boundary).";
     real_components = {"libcoap coap_subscribe.c persistence (coap_persist_startup, coap_op_observe_added/deleted, coap_op_dyn_resource_added, coap_op_resource_deleted, coap_op_obs_cnt_track_observe, the three load functions), coap_resource.c observer/notification code, glibc stdio on real files"};
